@@ -115,6 +115,12 @@ def run_check(pid, tier="quick", update_baseline=False, seed=0, verbose=False):
         verdicts.append(Verdict(lv, "proved" if res == "unsat" else "undecided", "cvc5-1.0", time.time() - t0, res + " " + err[:100], smt2=text))
     sol_t = time.time() - sol_t
 
+    incons = [v for v in verdicts if v.status == "vacuous" and "axioms used are contradictory" in (v.reason or "")]
+    if incons:
+        # an inconsistent axiom base proves anything: the checker itself is broken (exit 3), nothing is reported about the code
+        for v in incons[:5]:
+            print(f"CHECKER ERROR: inconsistent axioms behind {group_name(v.vc)}: {v.vc.meta.get('axioms_used')}")
+        return 3
     # ---- grouping
     groups = {}
     for v in verdicts:
